@@ -13,6 +13,7 @@ pub mod c08;
 pub mod c09;
 pub mod c10;
 pub mod c15;
+pub mod c18;
 pub mod c19;
 pub mod c20;
 pub mod demo;
@@ -32,6 +33,7 @@ pub fn run(args: &Args, r: &mut Report) -> bool {
         "C09" => c09::run(args, r),
         "C10" => c10::run(args, r),
         "C15" => c15::run(args, r),
+        "C18" => c18::run(args, r),
         "C19" => c19::run(args, r),
         "C20" => c20::run(args, r),
         "DEMO" => demo::run(args, r),
